@@ -9,6 +9,7 @@ extern int ls_replay_mode;   /* FORM_T only */
 void ls_done(void);
 void ls_impl_P(uint64_t x[5], unsigned first_round);   /* FORM_T only */
 #if defined(FORM_T)
+int ls_last_input(uint64_t x[5]);
 void ls_done_allow(unsigned allowed_trailing);
 #else
 #define ls_done_allow(n) ls_done()
